@@ -76,3 +76,40 @@ Theorem flate_reader_consumes_exactly_the_stream :
       f_outOff fin = zlen (concat_bytes obs).
 Proof. exact flate_impl_refines_rfc1951_valid. Qed.
 Print Assumptions flate_reader_consumes_exactly_the_stream.
+
+From V Require Meta.ReaderImpl Meta.ReaderImplSim Meta.ReaderImplThms.
+Module MetaReaderImplC.
+Import Base.Prelude Base.Prog Flate.Impl Flate.ImplRel Meta.Model Meta.Stream Meta.ReaderImpl Meta.ReaderImplSim Meta.ReaderImplThms.
+(* meta.Reader at implementation level, after EVERY call: OutputOffset = bytes delivered,
+   InputOffset = the bytes taken from the source (never more), NumBlocks = blocks decoded *)
+Theorem meta_reader_counters_are_exact : forall data bf fills reads sched obs fin,
+  bytes_lt256 data -> rd_run (mr_new data bf fills reads) sched = (obs, fin) ->
+  m_outOff fin = Z.of_nat (length (delivered obs)) /\
+  m_inOff fin = Z.of_nat (src_pos fin) /\
+  exists nb R f, m_nblocks fin = Z.of_N nb /\ spec_at data nb R (delivered obs ++ m_buf fin) f /\
+    (run_err obs = None \/ run_err obs = Some EEOF -> src_pos fin = ((R + 7) / 8)%nat).
+Proof. exact meta_reader_offsets. Qed.
+Print Assumptions meta_reader_counters_are_exact.
+(* meta.Reader ITSELF at implementation level (Meta/ReaderImpl.v: Read loop, decodeBlock over the
+   bit-reader model on both source kinds, the temporary bit writer, errors.Recover and the deferred
+   Flush, FinalMode, the counters; compared with the real Reader PER CALL: WMETAR) refines the
+   decoder of Meta/Model.v for every input, source kind and script and every schedule of Read
+   sizes: delivered bytes = the specification's output (also when it fails), io.EOF exactly when it
+   accepts, otherwise ITS error class - the classes never differ on any source kind -, FinalMode
+   and NumBlocks are the specification's, and InputOffset = source position = the end of the final
+   block: nothing beyond it is consumed *)
+Theorem meta_reader_consumes_exactly_the_stream : forall data bf fills reads sched obs fin,
+  bytes_lt256 data -> N.of_nat (length data) < 2 ^ 42 ->
+  rd_run (mr_new data bf fills reads) sched = (obs, fin) ->
+  let res := meta_decode data in
+  prefix_of (delivered obs) (mr_payload res) /\
+  forall e, run_err obs = Some e ->
+    delivered obs = mr_payload res /\
+    (e = EEOF <-> mr_err res = None) /\
+    (forall x, mr_err res = Some x -> e = x) /\
+    (mr_err res = None ->
+       m_FinalMode fin = mr_final res /\ m_nblocks fin = Z.of_N (mr_blocks res) /\
+       m_inOff fin = Z.of_N (mr_used res) /\ src_pos fin = N.to_nat (mr_used res)).
+Proof. exact meta_reader_refines_meta_decode. Qed.
+Print Assumptions meta_reader_consumes_exactly_the_stream.
+End MetaReaderImplC.
